@@ -11,16 +11,31 @@ import base64, hashlib, itertools, re, struct
 from .. import common as C
 
 MANIFEST = dict(
-    text="Lean 4 theorems over an executable model of mod_auth (rule lookup, Basic, Digest parsing / "
-         "validation / nonce / response, credential cache, periodic cleanup) and the mod_authn_file backends: "
-         "acceptance implies valid credentials of an authorized user for every header, history, clock and "
-         "cache-key hash (collisions included); model tied to the C by scenario-level differential runs under "
-         "ASan/UBSan and exhaustive small-scope probes of the parser and base64 decoder",
+    text="Lean 4 theorems over an executable model of mod_auth (rule lookup, Basic, Digest parsing / validation / "
+         "nonce / response, credential cache shared by per-condition backend scopes, periodic cleanup as the "
+         "server loop calls it, HTTP/2 pseudo-header path) and the mod_authn_file backends. PROVED for every "
+         "header, history, clock, backend scope and cache-key hash (collisions included): served => credentials "
+         "(read with lighttpd's own parsers) valid at the request's backend scope or at a scope that filled the "
+         "cache earlier, and the user authorized (c16_basic_sound, c16_digest_sound, *_one_backend); "
+         "uri/realm/method/nonce binding (c16_digest_replay_refused, c16_digest_method_bound: HTTP/2 method from "
+         "the header list; HTTP/1 method is C01's); refusals are 400/401, 500 only without a usable backend "
+         "(c16_reject_status); COMPLETENESS from an empty cache (c16_basic_valid_served, "
+         "c16_digest_valid_served, c16_issued_nonce_accepted); cache holds only backend records; cache "
+         "transparency ONLY when one backend/user file is behind all scopes "
+         "(c16_cache_never_upgrades_partial; negation witnessed for per-condition backends: open finding); "
+         "max-age: entries at most max-age+8 s old ONLY while the loop iterates every second (c16_cache_expires, "
+         "c16_cache_forgets; witness that a stalled loop breaks it; the code has no age test on a hit). TESTED "
+         "only: that the model is the C (differential runs under ASan/UBSan, exhaustive small-scope parser / "
+         "base64 probes), REMOTE_USER/AUTH_TYPE/challenge text, RFC 7616/7617 reading of headers (Python oracle)",
     note="trusted: Lean kernel (+propext, Classical.choice, Quot.sound), hand-written model validated by the "
-         "h_auth correspondence, MD5 uninterpreted in the theorems (collision resistance assumed, not proved), "
-         "crypt(3)/apr1/{SHA} htpasswd verification external; only MD5 digests exist in this build (no crypto "
-         "library); e2e glue (plugin dispatch of the 401/400) not exercised",
-    tech="Lean 4 proof over hand-written model + differential correspondence (in-process C harness)",
+         "h_auth correspondence (backend scope selection emulated by setting plugin defaults per request; confirmed "
+         "against the real server by the thorough-tier e2e probe), MD5 uninterpreted (collision resistance / "
+         "nonce unforgeability not expressible), crypt(3)/apr1/{SHA} verification external, only MD5 digests in "
+         "this build; 'valid credentials' are stated through the model's transcription of lighttpd's parsers, not "
+         "an RFC grammar; user files constant over a history except through backend scopes; outside: extern "
+         "scheme / auth.extern-authn, force_lowercase_filenames rule lookup, delivery of the 401/400 by the "
+         "response glue, uint16 truncation of parameter lengths (headers < 64 KiB)",
+    tech="Lean 4 proof over hand-written model + differential correspondence (in-process C harness; small e2e probe)",
     ref="6/C16")
 
 hx, unhx = C.hx, C.unhx
@@ -85,20 +100,29 @@ def q_op(method, target, path, hdr, h2=0):
 
 
 def make_line(rules, ops, backend, file, cache, hsel="r", hmod=0, mono=1000, epoch=1700000000):
-    return " ".join(["run", hsel, str(hmod), str(cache), backend, hx(file), str(mono), str(epoch),
-                     str(len(rules))] + [r.tok() for r in rules] + ops)
+    """backend / file: one value, or lists with one entry per backend scope (scope 0 first)"""
+    if isinstance(backend, str):
+        backend, file = [backend], [file]
+    return " ".join(["run", hsel, str(hmod), str(cache), "+".join(backend), "+".join(hx(f) for f in file),
+                     str(mono), str(epoch), str(len(rules))] + [r.tok() for r in rules] + ops)
 
 
 class Scn:
     """parsed scenario line"""
     def __init__(self, line):
         t = line.split(" ")
-        self.hsel, self.hmod, self.cache, self.backend = t[1], int(t[2]), t[3], t[4]
-        self.file = unhx(t[5])
+        self.hsel, self.hmod, self.cache = t[1], int(t[2]), t[3]
+        self.scopes = list(zip(t[4].split("+"), [unhx(f) for f in t[5].split("+")]))
+        self.select(0)
         self.mono, self.epoch = int(t[6]), int(t[7])
         n = int(t[8])
         self.rules = [rule_from_tok(x) for x in t[9:9 + n]]
         self.ops = t[9 + n:]
+
+    def select(self, n):
+        """backend scope in effect (what the per-request config patch selects)"""
+        self.cur = n
+        self.backend, self.file = self.scopes[n]
 
     def find_rule(self, path):
         for r in self.rules:
@@ -320,6 +344,9 @@ def check_digest(s, rule, req, hdr, user, epoch):
 
 
 VERBOSE = False
+# open finding (known_findings.json): auth.cache is keyed by (rule, user) only
+CROSS_SCOPE = ("the shared credential cache accepts under one auth.backend scope a credential that only another "
+               "scope's backend / user file verifies")
 
 
 def oracle_run(line, out):
@@ -339,21 +366,27 @@ def oracle_run_at(line, out):
     twin = _twin.get(line)
     twin_outs = twin.split(" ") if twin and twin not in ("cfg-error", "bad-op") else None
     mono, epoch = s.mono, s.epoch
+    steady = True
     for i, (op, o) in enumerate(zip(s.ops, outs)):
         f = op.split(",")
-        if f[0] == "a":
+        if f[0] in ("a", "s"):
             mono += int(f[1]); epoch += int(f[1])
+            if f[0] == "a" and int(f[1]) > 1:
+                steady = False                   # the server loop stalled: the cleanup may have been skipped
+        elif f[0] == "b":
+            s.select(int(f[1]))
         elif f[0] == "e":
             epoch += int(f[1])
         elif f[0] == "n":
             r = s.rules[int(f[1])]
             if o != "bad-op" and unhx(o) != ref_nonce(int(f[2]), int(f[3]), r.secret):
                 return (i, "mod_auth_append_nonce differs from the documented nonce format")
-        if f[0] in ("q", "a", "h") and s.cache != "-":
-            # every cached entry is younger than max-age (+ the 8-second cleanup period)
+        if f[0] in ("q", "a", "s", "h") and s.cache != "-" and steady:
+            # while the loop runs every second: every cached entry is at most max-age + 8 s old
+            # (cleanup every 8 s, seeing the second that is ending)
             ma = int(s.cache)
             for m in re.finditer(r"t=(-?\d+)", o.split("|")[-1]):
-                if mono - int(m.group(1)) > max(ma, 0) + 7:
+                if mono - int(m.group(1)) > max(ma, 0) + 8:
                     return (i, "cache entry older than max-age + cleanup period survives")
         flag_bad = False
         if f[0] == "q":
@@ -404,18 +437,31 @@ def oracle_run_at(line, out):
             if hdr is None:
                 return (i, "served without an Authorization header")
             user = unhx(res.split(":")[1])
+            def deep():
+                if rule.scheme == "b":
+                    return check_basic(s, rule, hdr, user)
+                return check_digest(s, rule, (method, target, ext), hdr, user, epoch)
+            v = None
             if twin_outs is not None and len(twin_outs) == len(outs):
                 tres = tw(twin_outs[i])
                 if tres.split(":")[0] != "go":
-                    return (i, "the credential cache turns a refused credential into an accepted one "
-                               "(refused with %s when auth.cache is off)" % tres.split(":")[0])
-                if tres.split(":")[1] != res.split(":")[1]:
-                    return (i, "the credential cache changes the authenticated user (REMOTE_USER)")
-            if rule.scheme == "b":
-                v = check_basic(s, rule, hdr, user)
-            else:
-                v = check_digest(s, rule, (method, target, ext), hdr, user, epoch)
+                    v = ("the credential cache turns a refused credential into an accepted one "
+                         "(refused with %s when auth.cache is off)" % tres.split(":")[0])
+                elif tres.split(":")[1] != res.split(":")[1]:
+                    v = "the credential cache changes the authenticated user (REMOTE_USER)"
+            v = v or deep()
             if v:
+                if s.cache != "-" and len(s.scopes) > 1:
+                    # is the credential one that ANOTHER backend scope of this configuration verifies?
+                    cur = s.cur
+                    other = False
+                    for n in range(len(s.scopes)):
+                        if n != cur and s.scopes[n] != s.scopes[cur]:
+                            s.select(n)
+                            other = other or deep() is None
+                    s.select(cur)
+                    if other:
+                        v = CROSS_SCOPE
                 return (i, v)
         elif kind not in ("401", "400", "500"):
             return (i, "refusal is neither 401 nor 400")
@@ -530,6 +576,20 @@ class World:
         if rng.random() < 0.02:
             self.rules[-1].require = rng.choice(BAD_REQUIRES)
         self.file = self.make_file()
+        # backend scopes: auth.backend / userfile set per condition while auth.require / auth.cache are global
+        self.scopes = [(self.backend, self.users, self.file)]
+        if rng.random() < 0.25:
+            b0, u0 = self.backend, self.users
+            self.backend = b0 if rng.random() < 0.6 else rng.choice(["plain", "htdigest", "htpasswd"])
+            self.users = {n: (pw if rng.random() < 0.5 else rng.choice(PWS)) for n, pw in u0.items() if rng.random() < 0.85}
+            for n in rng.sample(NAMES, rng.randint(0, 2)):
+                self.users.setdefault(n, rng.choice(PWS))
+            if not self.users:
+                self.users = {b"alice": b"q"}
+            self.scopes.append((self.backend, self.users, self.make_file()))
+        self.cur = 0
+        self.backend, self.users, self.file = self.scopes[0]
+        self.stalls = rng.random() < 0.12           # scenario in which the server loop may stall
         r = rng.random()
         self.cache = "-" if r < 0.3 else str(rng.choice([600, 600, 60, 10, 1, 0, 25]))
         r = rng.random()
@@ -915,11 +975,22 @@ class World:
                 last = self.h2_request(stats)
                 ops.append(last)
                 continue
+            if len(self.scopes) > 1 and 0.75 <= r < 0.83:
+                self.cur = rng.randrange(len(self.scopes))
+                self.backend, self.users, self.file = self.scopes[self.cur]
+                ops.append("b,%d" % self.cur)
+                if last is not None and rng.random() < 0.5:
+                    ops.append(last)                  # the same credentials under the other backend scope
+                continue
             if r < 0.12:
                 ma = 600 if self.cache == "-" else int(self.cache)
                 dt = rng.choice([1, 2, 7, 8, 9, 16, 60, 61, 540, 541, 600, 601, 700, max(ma, 1), ma + 1, ma + 7, ma + 8, ma + 9])
                 dt = max(1, min(dt, 1500))
-                ops.append("a,%d" % dt)
+                if self.stalls and rng.random() < 0.5:
+                    dt = rng.choice([0, 1, 2, 3, 8, 9, 16, 17, dt])
+                    ops.append("a,%d" % dt)           # one loop iteration, dt seconds late
+                else:
+                    ops.append("s,%d" % dt)           # dt iterations one second apart
                 self.now_mono += dt; self.now_epoch += dt
             elif r < 0.15:
                 de = rng.choice([-700, -601, -60, -1, 1, 60, 601, 5000])
@@ -935,7 +1006,8 @@ class World:
             else:
                 last = self.request(stats)
                 ops.append(last)
-        return make_line(self.rules, ops, self.backend, self.file, self.cache, self.hsel, self.hmod, self.mono, self.epoch)
+        return make_line(self.rules, ops, [x[0] for x in self.scopes], [x[2] for x in self.scopes], self.cache,
+                         self.hsel, self.hmod, self.mono, self.epoch)
 
 
 def directed_scenarios():
@@ -971,9 +1043,9 @@ def directed_scenarios():
            q_op("GET", b"/sec/x", b"/sec/x", dh(b"bob", b"R1", b"builder", b"GET", b"/sec/x", ns)),
            q_op("GET", b"/sec/x", b"/sec/x", dh(b"bob", b"R1", b"builder", b"GET", b"/sec/x", n0)),
            q_op("GET", b"/sec/x", b"/sec/x", dh(b"bob", b"R1", b"builder", b"GET", b"/sec/x", ref_nonce(ep, 7, b"other"))),
-           "a,541",
+           "s,541",
            q_op("GET", b"/sec/x", b"/sec/x", dh(b"bob", b"R1", b"builder", b"GET", b"/sec/x", ns)),
-           "a,60",
+           "s,60",
            q_op("GET", b"/sec/x", b"/sec/x", dh(b"bob", b"R1", b"builder", b"GET", b"/sec/x", ns)),
            q_op("GET", b"/priv/x", b"/priv/x", b"Basic " + b64(b"alice:wonder"))]
     for cache in ["-", "600", "10"]:
@@ -1016,6 +1088,11 @@ def finding_scenarios():
                          [q_op("GET", b"/dig/x", b"/dig/x", h(b"bob", b"")),
                           q_op("GET", b"/dig/x", b"/dig/x", h(b"BoB", b", userhash=true"))],
                          "plain", b"bob:builder\n", "600", epoch=ep))
+    # OPEN finding: global auth.require + auth.cache, user file per condition: alice's password of scope 0
+    # is refused under scope 1, verified under scope 0, and then served under scope 1 from the cache
+    cred = q_op("GET", b"/priv/x", b"/priv/x", b"Basic " + base64.b64encode(b"alice:pwA"))
+    out.append(make_line([Rule(b"/priv", "b", b"R1")], ["b,1", cred, "b,0", cred, "b,1", cred],
+                         ["plain", "plain"], [b"alice:pwA\n", b"alice:pwB\n"], "600"))
     return out
 
 
@@ -1107,6 +1184,49 @@ def _scratch_tmpdir():
     os.environ["TMPDIR"] = C.scratch_dir("auth")
 
 
+def e2e_cross_scope(ctx):
+    """the open cross-scope finding against the REAL server (thorough tier): global auth.require +
+    auth.cache, auth.backend.plain.userfile per $HTTP["host"]; confirms that selecting the backend
+    scope by setting `defaults` in h_auth is what the per-request config patch really does"""
+    import os
+    from .. import e2e
+    bindir, err = e2e.build_server()
+    if bindir is None:
+        ctx.notes.append("e2e cross-scope probe skipped: server build failed")
+        return
+    conf = ('auth.backend = "plain"\nauth.cache = ("max-age" => "600")\n'
+            'auth.require = ("/priv" => ("method" => "basic", "realm" => "R", "require" => "valid-user"))\n'
+            '$HTTP["host"] == "a.example" { auth.backend.plain.userfile = "@ROOT@/usersA" }\n'
+            '$HTTP["host"] == "b.example" { auth.backend.plain.userfile = "@ROOT@/usersB" }\n')
+    srv = e2e.Server(bindir, conf, modules=("mod_auth", "mod_authn_file"))
+    open(os.path.join(srv.root, "usersA"), "w").write("alice:pwA\n")
+    open(os.path.join(srv.root, "usersB"), "w").write("alice:pwB\n")
+    os.makedirs(os.path.join(srv.docroot, "priv"), exist_ok=True)
+    open(os.path.join(srv.docroot, "priv", "x.txt"), "w").write("secret\n")
+    got = []
+    with srv:
+        for host in (b"b.example", b"a.example", b"b.example"):
+            req = (b"GET /priv/x.txt HTTP/1.1\r\nHost: " + host + b"\r\nAuthorization: Basic " +
+                   base64.b64encode(b"alice:pwA") + b"\r\nConnection: close\r\n\r\n")
+            data = e2e.h1_exchange(srv.port, [req])
+            data = data[0] if isinstance(data, (tuple, list)) else data
+            got.append(bytes(data)[9:12].decode("latin-1"))
+    ctx.evaluations += 3
+    ctx.keys["e2e:cross-scope:" + "-".join(got)] += 1
+    ctx.streams.append({"name": "auth e2e (shared cache across $HTTP[host] userfiles)", "cases": 3,
+                        "disagreements": 0, "oracle_hits": int(got == ["401", "200", "200"]), "wall_s": 0})
+    if got[:2] != ["401", "200"]:
+        ctx.violation("oracle:auth e2e:real server does not separate the per-host user files (%s)" % "-".join(got),
+                      "e2e: expected 401 on host b and 200 on host a before any cache effect",
+                      {"property": ctx.pid, "kind": "property-oracle", "correspondence": "auth e2e", "input": conf,
+                       "impl_obs": "-".join(got)})
+    elif got[2] != "401":
+        ctx.violation("oracle:auth e2e:" + CROSS_SCOPE, CROSS_SCOPE,
+                      {"property": ctx.pid, "kind": "property-oracle", "correspondence": "auth e2e",
+                       "input": conf + "# requests: Host b.example, a.example, b.example with 'alice:pwA'",
+                       "impl_obs": "-".join(got), "oracle_verdict": CROSS_SCOPE})
+
+
 def run(ctx):
     _scratch_tmpdir()
     exe, err = C.build_harness("h_auth", libs=HLIBS)
@@ -1122,13 +1242,17 @@ def run(ctx):
     ctx.differential("auth scenarios", [exe], "auth", lines, oracle, classify)
     ctx.differential("auth probes (digest parser / base64 / compare)", [exe], "auth", probe_lines(ctx), oracle, classify)
     ctx.differential("nonce timestamp overflow", [exe], "auth", overflow_scenarios(), oracle, classify)
+    if not ctx.quick:
+        e2e_cross_scope(ctx)
     ctx.rule = ("cases: whole scenarios (backend + user file + rules + cache + cache-key hash + sequence of requests and "
                 "clock steps); distinct = (backend, cache on/off, key collisions on/off, set of outcome classes seen in the "
                 "scenario) plus parser/base64 probe outcome classes")
     ctx.assumptions += ["Authorization header values and user files are NUL-free (C01 rejects NUL in requests)",
                         "the build has no crypto library: MD5 / MD5-sess are the only Digest algorithms",
                         "passwords are compared as C strings by the file backends (bytes after a decoded NUL are ignored)",
-                        "MD5 collision resistance (H is uninterpreted in the theorems)"]
+                        "MD5 collision resistance (H is uninterpreted in the theorems)",
+                        "cache age bound: the server loop iterates at least once per second (Steady); mod_auth has no age test on a hit",
+                        "cache transparency: one backend / user file behind all condition scopes (otherwise: open finding, known_findings.json)"]
 
 
 def replay_line(ctx, rep):
